@@ -14,7 +14,7 @@ Definition C12_full_statement : Prop :=
   forall A mA (SA : sim A mA) B mB (SB : sim B mB) prefix init qs,
     run_history A prefix init qs = run_history B prefix init qs.
 
-(* Proved: every sequential history — Create / Update / Delete / Get / List / Compact; correct, stale, zero and future
+(* Proved: every sequential history — Create / Update / Delete / Get / List / Count / ListByStream / Compact; correct, stale, zero and future
    expected revisions; existing, missing, deleted, deleted-and-compacted keys; limits; explicit read revisions — that
    writes no empty value (finding C12-F1), for any two adapters that refine the contract, whichever reading of
    DelCurrent (by value / by version) each implements.
